@@ -219,3 +219,78 @@ def dashed(s):
 
 def undashed(s):
     return s.replace('-', '_')
+
+
+# ---- type terms and constructed Python values, natively (spec/construct.py)
+
+def ty_is_union(t):
+    return t[0] == 'Union'
+
+
+def ty_members(t):
+    return list(t[1])
+
+
+def ty_is_list(t):
+    return t[0] == 'List'
+
+
+def ty_elem(t):
+    return t[1]
+
+
+def ty_is_dict(t):
+    return t[0] == 'Dict'
+
+
+def ty_key(t):
+    return t[1]
+
+
+def ty_dval(t):
+    return t[2]
+
+
+def py_is_list(o):
+    return isinstance(o, list)
+
+
+def py_is_dict(o):
+    return isinstance(o, dict)
+
+
+def py_is_bool(o):
+    return isinstance(o, bool)
+
+
+def py_is_str(o):
+    return isinstance(o, str)
+
+
+def py_str(o):
+    return o
+
+
+def py_items(o):
+    return list(o) if isinstance(o, list) else []
+
+
+def py_keys(o):
+    return list(o.keys()) if isinstance(o, dict) else []
+
+
+def py_vals(o):
+    return list(o.values()) if isinstance(o, dict) else []
+
+
+def py_has(o, name):
+    return name in o
+
+
+def py_get(o, name):
+    return o[name]
+
+
+def py_inst(o, t):
+    from pyvc import native_types
+    return isinstance(o, native_types.conc_type(t))
